@@ -52,59 +52,81 @@ type Rule struct {
 }
 
 type Case struct {
-	Kind    string   `json:"kind"`
-	Topics  []Topic  `json:"topics"` // Topics[i] belongs to client i+1
-	Ops     []Op     `json:"ops"`
-	Outs    [][]int  `json:"outs"`  // per executed op: clients (sorted) the broadcast arrived on
-	Lists   [][]Rule `json:"lists"` // per executed op other than a broadcast: Hub.Rules afterwards, sorted by stream
-	Panic   bool     `json:"panic"` // the hub goroutine panicked at op len(Outs)
-	Hang    bool     `json:"hang"`  // the hub did not take op len(Outs) within the watchdog
-	Detail  string   `json:"detail,omitempty"`
-	Retries int      `json:"retries,omitempty"`
-	Starved bool     `json:"starved,omitempty"` // a member of the inner hub's list got nothing in ~1 s of repeats: history cut there
+	Kind   string   `json:"kind"`
+	Topics []Topic  `json:"topics"` // Topics[i] belongs to client i+1
+	Ops    []Op     `json:"ops"`
+	Outs   [][]int  `json:"outs"`            // per executed op: clients (sorted) the broadcast arrived on
+	Lists  [][]Rule `json:"lists"`           // per executed op other than a broadcast: Hub.Rules afterwards, sorted by stream
+	Listed []bool   `json:"listed"`          // Listed[i]: Lists[i] was read (wide histories skip the table while it is being filled)
+	Quiet  int      `json:"quiet,omitempty"` // the first Quiet operations fill the rule table: no probes, table not read
+	// names: StreamNames[s] / FeedNames[f] when present and non-empty, else stream/s<s> and f<f>
+	StreamNames []string `json:"stream_names,omitempty"`
+	FeedNames   []string `json:"feed_names,omitempty"`
+	Panic       bool     `json:"panic"` // the hub goroutine panicked at op len(Outs)
+	Hang        bool     `json:"hang"`  // the hub did not take op len(Outs) within the watchdog
+	Detail      string   `json:"detail,omitempty"`
+	Retries     int      `json:"retries,omitempty"`
+	Starved     bool     `json:"starved,omitempty"` // a member of the inner hub's list got nothing in ~1 s of repeats: history cut there
 	// host scenarios only: how the stream subscriber's destination stalls
-	Refuse  int `json:"refuse,omitempty"`   // re-dials refused after the drop
-	DelayMs int `json:"delay_ms,omitempty"` // the first accepted re-dial is held this long before the upgrade
+	Refuse     int    `json:"refuse,omitempty"`      // re-dials refused after the drop
+	DelayMs    int    `json:"delay_ms,omitempty"`    // the first accepted re-dial is held this long before the upgrade
+	FeedPrefix string `json:"feed_prefix,omitempty"` // prefix of the feed names of a host scenario
 }
 
-func streamName(s int) string {
+func (c *Case) sname(s int) string {
 	if s == 0 {
 		return "deleteAll"
 	}
+	if s < len(c.StreamNames) && c.StreamNames[s] != "" {
+		return c.StreamNames[s]
+	}
 	return fmt.Sprintf("stream/s%d", s)
 }
-func feedName(f int) string { return fmt.Sprintf("f%d", f) }
+func (c *Case) fname(f int) string {
+	if f < len(c.FeedNames) && c.FeedNames[f] != "" {
+		return c.FeedNames[f]
+	}
+	return fmt.Sprintf("f%d", f)
+}
 
-func streamNumber(name string) int {
-	for s := 0; s <= 3; s++ {
-		if streamName(s) == name {
+// snumber / fnumber map a name found in the hub's tables back to its number (99 = a name the
+// harness never used)
+func (c *Case) snumber(name string) int {
+	for s := 0; s < len(c.StreamNames) || s <= 3; s++ {
+		if c.sname(s) == name {
 			return s
 		}
 	}
+	var s int
+	if _, err := fmt.Sscanf(name, "stream/s%d", &s); err == nil && c.sname(s) == name {
+		return s
+	}
 	return 99
 }
-func feedNumber(name string) int {
-	for f := 1; f <= 4; f++ {
-		if feedName(f) == name {
+func (c *Case) fnumber(name string) int {
+	for f := 1; f < len(c.FeedNames) || f <= 4; f++ {
+		if c.fname(f) == name {
 			return f
 		}
 	}
 	return 99
 }
 
-func (t Topic) name() string {
+func (c *Case) topicName(t Topic) string {
 	if t.Stream {
-		return streamName(t.N)
+		return c.sname(t.N)
 	}
-	return feedName(t.N)
+	return c.fname(t.N)
 }
 
+// isStreamTopic is the property's reading: a topic is a stream iff it begins with "stream/"
+func isStreamTopic(name string) bool { return strings.HasPrefix(name, "stream/") }
+
 // ---------------------------------------------------------------- Coq emitters
-func (t Topic) coq(i int) string {
-	if t.Stream {
-		return lib.App("cs", lib.N(uint64(i)), lib.N(uint64(t.N)))
-	}
-	return lib.App("cf", lib.N(uint64(i)), lib.N(uint64(t.N)))
+// a client is emitted with its topic NAME; the model decides whether that is a stream
+func (c *Case) clientCoq(i int) string {
+	t := c.Topics[i-1]
+	return lib.App("cl", lib.N(uint64(i)), lib.Bytes([]byte(c.topicName(t))), lib.N(uint64(t.N)))
 }
 
 func ns(xs []int) string {
@@ -120,9 +142,9 @@ func (c Case) coq() string {
 	for i, o := range c.Ops {
 		switch o.K {
 		case "Reg":
-			ops[i] = lib.App("Register", c.Topics[o.C-1].coq(o.C))
+			ops[i] = lib.App("Register", c.clientCoq(o.C))
 		case "Unreg":
-			ops[i] = lib.App("Unregister", c.Topics[o.C-1].coq(o.C))
+			ops[i] = lib.App("Unregister", c.clientCoq(o.C))
 		case "Add":
 			ops[i] = lib.App("AddRule", lib.N(uint64(o.S)), ns(o.F))
 		case "Del":
@@ -145,7 +167,7 @@ func (c Case) coq() string {
 		for j, r := range l {
 			rs[j] = lib.Tuple(lib.N(uint64(r.S)), ns(r.F))
 		}
-		lists[i] = lib.List(rs)
+		lists[i] = lib.OptionOf(i < len(c.Listed) && c.Listed[i], lib.List(rs))
 	}
 	return lib.Tuple(lib.List(ops), lib.List(outs), lib.List(lists), lib.Bool(c.Panic || c.Hang))
 }
@@ -239,9 +261,9 @@ func (r *runner) exec(c *Case, o Op, idx int) bool {
 	case "Add":
 		feeds := make([]string, len(o.F))
 		for i, f := range o.F {
-			feeds[i] = feedName(f)
+			feeds[i] = c.fname(f)
 		}
-		rule := agg.Rule{Stream: streamName(o.S), Feeds: feeds}
+		rule := agg.Rule{Stream: c.sname(o.S), Feeds: feeds}
 		return r.do(func(d <-chan struct{}, t <-chan time.Time) bool {
 			select {
 			case r.h.Add <- rule:
@@ -254,7 +276,7 @@ func (r *runner) exec(c *Case, o Op, idx int) bool {
 	case "Del", "DelAll":
 		name := "deleteAll"
 		if o.K == "Del" {
-			name = streamName(o.S)
+			name = c.sname(o.S)
 		}
 		return r.do(func(d <-chan struct{}, t <-chan time.Time) bool {
 			select {
@@ -284,7 +306,7 @@ func (r *runner) probe(c *Case, f int, idx int) bool {
 	wait := 4 * time.Millisecond
 	for attempt := 0; attempt < 8; attempt++ {
 		tg := tag(idx, attempt)
-		msg := hub.Message{Data: []byte(tg), Sender: hub.Client{Name: "probe", Topic: feedName(f)}, Sent: time.Now(), Type: 1}
+		msg := hub.Message{Data: []byte(tg), Sender: hub.Client{Name: "probe", Topic: c.fname(f)}, Sent: time.Now(), Type: 1}
 		ok := r.do(func(d <-chan struct{}, t <-chan time.Time) bool {
 			select {
 			case r.h.Broadcast <- msg:
@@ -299,7 +321,7 @@ func (r *runner) probe(c *Case, f int, idx int) bool {
 		}
 		// who did the inner hub offer it to, and how often? (the hub goroutines are idle after the barrier)
 		want := map[int]int{}
-		for m := range r.h.Hub.Clients[feedName(f)] {
+		for m := range r.h.Hub.Clients[c.fname(f)] {
 			var k int
 			if _, err := fmt.Sscanf(m.Name, "c%d", &k); err == nil && k >= 1 && k <= nClients {
 				want[k-1]++
@@ -343,14 +365,14 @@ func runHistory(c *Case) {
 		r.h.Run(closed)
 	}()
 	for i, t := range c.Topics {
-		r.cl = append(r.cl, &hub.Client{Hub: r.h.Hub, Name: fmt.Sprintf("c%d", i+1), Topic: t.name(),
+		r.cl = append(r.cl, &hub.Client{Hub: r.h.Hub, Name: fmt.Sprintf("c%d", i+1), Topic: c.topicName(t),
 			Send: make(chan hub.Message, 4096), Stats: hub.NewClientStats()})
 		r.got = append(r.got, map[string]int{})
 	}
 	r.dummy = &hub.Client{Hub: r.h.Hub, Name: "barrier", Topic: "zz-barrier", Send: make(chan hub.Message, 1), Stats: hub.NewClientStats()}
 	c.Outs, c.Panic, c.Hang, c.Detail, c.Retries, c.Starved = nil, false, false, "", 0, false
 	n := 0
-	c.Lists = nil
+	c.Lists, c.Listed = nil, nil
 	for i, o := range c.Ops {
 		if !r.exec(c, o, i) || !r.barrier() {
 			break
@@ -358,11 +380,12 @@ func runHistory(c *Case) {
 		n++
 		// the hub goroutine is idle between the barrier and the next operation: read its rule table
 		l := []Rule{}
-		if o.K != "B" {
+		c.Listed = append(c.Listed, o.K != "B" && i >= c.Quiet)
+		if o.K != "B" && i >= c.Quiet {
 			for name, feeds := range r.h.Rules {
-				ru := Rule{S: streamNumber(name), F: []int{}}
+				ru := Rule{S: c.snumber(name), F: []int{}}
 				for _, f := range feeds {
-					ru.F = append(ru.F, feedNumber(f))
+					ru.F = append(ru.F, c.fnumber(f))
 				}
 				l = append(l, ru)
 			}
@@ -419,6 +442,9 @@ func genHistory(r *lib.Rng, kind string) Case {
 		} else {
 			c.Topics = append(c.Topics, Topic{Stream: false, N: r.Range(1, nFeeds)})
 		}
+	}
+	if r.Chance(2, 5) {
+		nameShapes(r, &c)
 	}
 	registered := make([]bool, nClients)
 	nops := r.Range(6, 30)
@@ -499,6 +525,88 @@ func genHistory(r *lib.Rng, kind string) Case {
 	return c
 }
 
+// nameShapes gives some feeds and streams names near the "stream/" prefix that decides what a topic
+// is: feeds that merely begin with the letters, streams with an odd remainder.
+func nameShapes(r *lib.Rng, c *Case) {
+	feeds := []string{"stream", "streams", "streamcam/video", "stream2/x", "Stream/x", "xstream/a", "streaming0", "stream-1/a", "STREAM/a", "strea/m"}
+	streams := []string{"stream//a", "stream/", "stream/stream", "stream/s 1", "stream/deleteAll", "stream/Stream/x"}
+	c.FeedNames = make([]string, 5)
+	c.StreamNames = make([]string, 4)
+	for f := 1; f <= 4; f++ {
+		if r.Chance(1, 2) {
+			k := r.Intn(len(feeds))
+			c.FeedNames[f] = feeds[k]
+			feeds = append(feeds[:k], feeds[k+1:]...)
+		}
+	}
+	for s := 1; s <= 2; s++ {
+		if r.Chance(1, 3) {
+			k := r.Intn(len(streams))
+			c.StreamNames[s] = streams[k]
+			streams = append(streams[:k], streams[k+1:]...)
+		}
+	}
+	// the stream nobody subscribes to may have a name that is not a stream name at all
+	if r.Chance(1, 2) && len(feeds) > 0 {
+		c.StreamNames[3] = feeds[r.Intn(len(feeds))]
+	}
+}
+
+// genWide: a rule table of K rules (streams 1..K; clients on streams 1 and 2 and on feed 1), filled
+// without observation, then a tail of replaces / new rules / deletes / re-adds with the usual probes
+// and the table read after every operation.
+func genWide(r *lib.Rng, K int) Case {
+	c := Case{Kind: fmt.Sprintf("wide%d", K), Topics: []Topic{{true, 1}, {true, 2}, {false, 1}, {true, 1}}}
+	feeds := func() []int {
+		fs := []int{}
+		for i, n := 0, r.Range(1, 2); i < n; i++ {
+			fs = append(fs, r.Range(1, nFeeds))
+		}
+		return fs
+	}
+	for k := 1; k <= nClients; k++ {
+		c.Ops = append(c.Ops, Op{K: "Reg", C: k})
+	}
+	present := map[int]bool{}
+	for s := 1; s <= K; s++ {
+		c.Ops = append(c.Ops, Op{K: "Add", S: s, F: feeds()})
+		present[s] = true
+	}
+	c.Quiet = len(c.Ops)
+	probes := func() {
+		for f := 1; f <= nFeeds; f++ {
+			c.Ops = append(c.Ops, Op{K: "B", F: []int{f}})
+		}
+	}
+	probes()
+	next := K + 1
+	deleted := []int{}
+	for i := 0; i < 8; i++ {
+		var o Op
+		switch x := r.Intn(100); {
+		case x < 40:
+			o = Op{K: "Add", S: r.Range(1, 2), F: feeds()} // replace the rule of a subscribed stream
+		case x < 55:
+			o = Op{K: "Add", S: r.Range(1, K), F: feeds()} // replace (or re-add) some rule
+		case x < 72:
+			o = Op{K: "Add", S: next, F: feeds()} // one more rule
+			next++
+		case x < 90 || len(deleted) == 0:
+			o = Op{K: "Del", S: r.Range(1, K)}
+			if r.Chance(1, 3) {
+				o.S = r.Range(1, 2)
+			}
+			deleted = append(deleted, o.S)
+		default:
+			o = Op{K: "Add", S: deleted[r.Intn(len(deleted))], F: feeds()} // re-add a deleted rule
+		}
+		c.Ops = append(c.Ops, o)
+		probes()
+	}
+	_ = present
+	return c
+}
+
 // ---------------------------------------------------------------- the property's own oracle
 // A direct transcription of the statement: after every prefix of the history, a message on feed f
 // reaches exactly the registered plain subscribers of f and the registered stream subscribers whose
@@ -526,10 +634,20 @@ func oracle(c Case, idx int, res *lib.Result) {
 	lastRuleOp := "start"
 	histTo := func(i int) string {
 		hs := []string{}
-		for _, p := range c.Ops[:i+1] {
-			if p.K != "B" {
-				hs = append(hs, p.String())
+		filled := 0
+		for j, p := range c.Ops[:i+1] {
+			if p.K == "B" {
+				continue
 			}
+			if j < c.Quiet && p.K == "Add" {
+				filled++ // the table being filled: summarised
+				continue
+			}
+			if filled > 0 {
+				hs = append(hs, fmt.Sprintf("[%d rules added: %s .. %s]", filled, c.sname(1), c.sname(filled)))
+				filled = 0
+			}
+			hs = append(hs, c.opString(p))
 		}
 		return "; history (broadcasts omitted): " + strings.Join(hs, "; ")
 	}
@@ -546,11 +664,11 @@ func oracle(c Case, idx int, res *lib.Result) {
 				hist := []string{}
 				for _, p := range c.Ops[:i+1] {
 					if p.K != "B" {
-						hist = append(hist, p.String())
+						hist = append(hist, c.opString(p))
 					}
 				}
 				bad(what, o.K+"-after-"+lastRuleOp,
-					fmt.Sprintf("op %d (%s): %s %s; history so far (broadcasts omitted): %s", i, o.String(), what, c.Detail, strings.Join(hist, "; ")))
+					fmt.Sprintf("op %d (%s): %s %s; history so far (broadcasts omitted): %s", i, c.opString(o), what, c.Detail, strings.Join(hist, "; ")))
 			}
 			return
 		}
@@ -577,11 +695,11 @@ func oracle(c Case, idx int, res *lib.Result) {
 		case "Stall":
 			lastRuleOp = "stall"
 		}
-		if o.K != "B" && i < len(c.Lists) {
+		if o.K != "B" && i < len(c.Lists) && i < len(c.Listed) && c.Listed[i] {
 			got := c.Lists[i]
 			for _, ru := range got {
 				if ru.S == 0 {
-					bad("reserved-id-created", o.K, fmt.Sprintf("op %d (%s): the rule table holds a rule named deleteAll", i, o.String()))
+					bad("reserved-id-created", o.K, fmt.Sprintf("op %d (%s): the rule table holds a rule named deleteAll", i, c.opString(o)))
 				}
 			}
 			same := len(got) == len(rules)
@@ -592,7 +710,27 @@ func oracle(c Case, idx int, res *lib.Result) {
 				}
 			}
 			if !same {
-				bad("rule-table-not-latest", o.K, fmt.Sprintf("op %d (%s): rule table %v, the history says %v", i, o.String(), got, rules))
+				// name the entries that differ, not the whole table
+				diff := []string{}
+				seen := map[int]bool{}
+				for _, ru := range got {
+					seen[ru.S] = true
+					if want, ok := rules[ru.S]; !ok {
+						diff = append(diff, fmt.Sprintf("%s=%v is in the table but was deleted / never added", c.sname(ru.S), ru.F))
+					} else if fmt.Sprint(want) != fmt.Sprint(ru.F) {
+						diff = append(diff, fmt.Sprintf("%s=%v in the table, latest rule is %v", c.sname(ru.S), ru.F, want))
+					}
+				}
+				for sn, want := range rules {
+					if !seen[sn] {
+						diff = append(diff, fmt.Sprintf("%s=%v was added and is not in the table", c.sname(sn), want))
+					}
+				}
+				sort.Strings(diff)
+				if len(diff) > 6 {
+					diff = append(diff[:6], fmt.Sprintf("... %d more", len(diff)-6))
+				}
+				bad("rule-table-not-latest", o.K, fmt.Sprintf("op %d (%s): table of %d rules, history says %d: %s", i, c.opString(o), len(got), len(rules), strings.Join(diff, "; "))+histTo(i))
 			}
 		}
 		switch o.K {
@@ -607,9 +745,13 @@ func oracle(c Case, idx int, res *lib.Result) {
 			}
 			for k := 1; k <= len(c.Topics); k++ {
 				t := c.Topics[k-1]
+				stream := isStreamTopic(c.topicName(t)) // the property's classification, from the name
+				if stream != t.Stream {
+					bad("harness-tables-inconsistent", "topic", "the generator numbered "+c.topicName(t)+" in the wrong table")
+				}
 				want := 0 // copies: once per time the latest rule names the feed (the hub subscribes per entry)
 				if reg[k] {
-					if t.Stream {
+					if stream {
 						for _, g := range rules[t.N] {
 							if g == f {
 								want++
@@ -620,21 +762,21 @@ func oracle(c Case, idx int, res *lib.Result) {
 					}
 				}
 				switch {
-				case got[k] > 0 && want == 0 && t.Stream:
+				case got[k] > 0 && want == 0 && stream:
 					bad("feed-not-in-latest-rule", "after-"+lastRuleOp,
-						fmt.Sprintf("op %d: client %d on %s received feed %s, which its latest rule %v does not name (registered=%v)", i, k, t.name(), feedName(f), rules[t.N], reg[k])+histTo(i))
+						fmt.Sprintf("op %d: client %d on %s received feed %s, which its latest rule %v does not name (registered=%v)", i, k, c.topicName(t), c.fname(f), rules[t.N], reg[k])+histTo(i))
 				case got[k] > 0 && want == 0:
 					bad("plain-subscriber-affected", "after-"+lastRuleOp,
-						fmt.Sprintf("op %d: plain client %d on %s received feed %s (registered=%v)", i, k, t.name(), feedName(f), reg[k])+histTo(i))
-				case got[k] == 0 && want > 0 && t.Stream:
+						fmt.Sprintf("op %d: plain client %d on %s received feed %s (registered=%v)", i, k, c.topicName(t), c.fname(f), reg[k])+histTo(i))
+				case got[k] == 0 && want > 0 && stream:
 					bad("missing-feed", "after-"+lastRuleOp,
-						fmt.Sprintf("op %d: client %d on %s did not receive feed %s named by its latest rule %v (the broadcast was repeated for about 1 s)", i, k, t.name(), feedName(f), rules[t.N])+histTo(i))
+						fmt.Sprintf("op %d: client %d on %s did not receive feed %s named by its latest rule %v (the broadcast was repeated for about 1 s)", i, k, c.topicName(t), c.fname(f), rules[t.N])+histTo(i))
 				case got[k] == 0 && want > 0:
 					bad("plain-subscriber-affected", "missing-after-"+lastRuleOp,
-						fmt.Sprintf("op %d: plain client %d on %s did not receive its feed", i, k, t.name())+histTo(i))
+						fmt.Sprintf("op %d: plain client %d on %s did not receive its feed", i, k, c.topicName(t))+histTo(i))
 				case got[k] > want:
 					bad("duplicate-delivery", "after-"+lastRuleOp,
-						fmt.Sprintf("op %d: client %d on %s received the same broadcast on feed %s %d times (its latest rule %v names the feed %d time(s))", i, k, t.name(), feedName(f), got[k], rules[t.N], want)+histTo(i))
+						fmt.Sprintf("op %d: client %d on %s received the same broadcast on feed %s %d times (its latest rule %v names the feed %d time(s))", i, k, c.topicName(t), c.fname(f), got[k], rules[t.N], want)+histTo(i))
 				}
 			}
 		}
@@ -644,14 +786,14 @@ func oracle(c Case, idx int, res *lib.Result) {
 	}
 }
 
-func (o Op) String() string {
+func (c *Case) opString(o Op) string {
 	switch o.K {
 	case "Reg", "Unreg":
 		return fmt.Sprintf("%s c%d", o.K, o.C)
 	case "Add":
-		return fmt.Sprintf("Add %s %v", streamName(o.S), o.F)
+		return fmt.Sprintf("Add %s %v", c.sname(o.S), o.F)
 	case "Del":
-		return "Del " + streamName(o.S)
+		return "Del " + c.sname(o.S)
 	case "B":
 		return fmt.Sprintf("B f%d", o.F[0])
 	case "Stall":
@@ -761,6 +903,15 @@ func main() {
 			}
 			cases = append(cases, c)
 		}
+		// wide rule tables around the sizes where a bound might sit
+		wide := []int{8, 9, 63, 64, 65, 255, 256, 257, 1023, 1024, 1025, 1100}
+		if a.Tier == "thorough" {
+			wide = append(wide, 4095, 4096, 4097)
+		}
+		var wideCases []Case
+		for _, K := range wide {
+			wideCases = append(wideCases, genWide(rng.Fork(), K))
+		}
 		// the host scenarios (vw.Stream() with default options, a stream subscriber that stalls)
 		for i := 0; i < a.Pick(4, 24); i++ {
 			cases = append(cases, genHost(rng.Fork()))
@@ -778,7 +929,12 @@ func main() {
 				kind = "short"
 			}
 			cases = append(cases, genHistory(r, kind))
+			if i%50 == 10 && len(wideCases) > 0 { // one wide case per shard of 50: they are the slow ones to evaluate
+				cases = append(cases, wideCases[0])
+				wideCases = wideCases[1:]
+			}
 		}
+		cases = append(cases, wideCases...)
 	}
 
 	payloads := make([]json.RawMessage, len(cases))
